@@ -64,6 +64,19 @@ func propScaleTokenizers(c *Ctx, which string) {
 		}
 	}
 	if which == "C12" {
+		// an LF CR / CR LF / LF LF pair across offsets 4095|4096 and 8191|8192, tokens ending directly before later line breaks
+		for _, base := range []int{4096, 8192} {
+			for _, pair := range []string{"\n\r", "\r\n", "\n\n", "\r\r", "x\n"} {
+				body := strings.Repeat("ab ", base/3+1)[:base-1]
+				in := []rune(body + pair + "ab\ncd ef\r\ngh\n\rij\nkl")
+				for _, k := range []string{"g", "e"} {
+					runC12Case(c, k, []int{0, 16 | 32, 127}, in)
+				}
+			}
+		}
+		// more than 2^24 lines: a token on line 16 777 218
+		if func() bool { in := []rune(strings.Repeat("\n", 1<<24+1) + "x y"); runC12Case(c, "g", []int{0}, in); return true }() {
+		}
 		// more than 4096 / 65536 tokens, columns and lines in one input
 		for _, b := range []struct {
 			kind, pat string
@@ -212,7 +225,7 @@ func propScaleCsv(c *Ctx) {
 	for _, n := range sizes {
 		row := make([]string, n)
 		for i := range row {
-			row[i] = []string{"a", "", "x,y", "q\"r", "é"}[i%5]
+			row[i] = []string{"a", "", "x,y", "q\"r", "é", "a#b", "%c%", "_d_|"}[i%8]
 		}
 		rows := [][]string{row, {strings.Repeat("long ", n), "b"}, {strings.Repeat("\"", n)}}
 		for _, eol := range []string{"\n", "\r\n"} {
@@ -307,6 +320,15 @@ func propScaleTables(c *Ctx, which string) {
 		ops = append(ops, mapOp{'a', 0x100, 0x17f, "2"})
 		runCmapCase(c, ops, []int{0xff, 0x100, 0x17f, 0x180, 0x416, 0x2000, 0x2001, 0x2003, 0x4e16, 0xfffe})
 	}
+	// two different reference objects with equal content registered for the same range one after the other, re-registration of
+	// a range after an overlapping one (below and above U+0100)
+	for _, r := range [][2]int{{0x61, 0x7a}, {0x400, 0x4ff}, {0xf0, 0x110}} {
+		mid := (r[0] + r[1]) / 2
+		runCmapCase(c, []mapOp{{'a', r[0], r[1], "1"}, {'a', r[0], r[1], "3"}}, []int{r[0], mid, r[1], r[1] + 1})
+		runCmapCase(c, []mapOp{{'a', r[0], r[1], "3"}, {'a', r[0], r[1], "1"}, {'a', r[0], r[1], "3"}}, []int{r[0], mid, r[1]})
+		runCmapCase(c, []mapOp{{'a', r[0], r[1], "1"}, {'a', mid, r[1] + 0x20, "n"}, {'a', r[0], r[1], "1"}}, []int{r[0], mid, r[1], r[1] + 1, r[1] + 0x20})
+		runCmapCase(c, []mapOp{{'a', r[0], r[1], "1"}, {'a', mid, r[1] + 0x20, "2"}, {'a', r[0], r[1], "3"}, {'a', mid, mid, "n"}, {'a', r[0], r[1], "1"}}, []int{r[0], mid, r[1], r[1] + 1})
+	}
 	// partly overlapping ranges before, in the middle of and after hundreds of other registrations: every probe is
 	// answered by the latest registration that covers it - the uncovered head and tail of an older range stay with it
 	for _, n := range []int{10, 250, 257, 300, 520} {
@@ -397,6 +419,30 @@ func propScaleScanner(c *Ctx) {
 					runScanCase(c, content, ops)
 				}
 			}
+		}
+	}
+	// the cursor right after the CR of a CR LF pair (and after LF of LF CR) at the end of a long line, then long multi-unreads
+	for _, brk := range []string{"\r\n", "\n\r", "\r", "\n"} {
+		for _, ll := range []int{20, 40, 70} {
+			content := []rune("ab\n" + strings.Repeat("x", ll) + brk + "yy" + brk + "z")
+			for _, stop := range []int{3 + ll + 1, 3 + ll + len(brk), 3 + ll + len(brk) + 1} {
+				for _, k := range []int{16, 17, 18, ll - 1, ll, ll + 1, ll + 2} {
+					var ops []string
+					for i := 0; i < stop; i++ {
+						ops = append(ops, "r")
+					}
+					ops = append(ops, fmt.Sprintf("m%d", k), "p", "r", "r")
+					runScanCase(c, content, ops)
+				}
+			}
+		}
+	}
+	// characters that a "clean-up" might drop at the very start of the content
+	for _, first := range []rune{0xfeff, 0xfffe, 0, 0x2028, 0x200b, 0xa0} {
+		for _, rest := range []string{"", "a", "\nb", string(first) + "a\r\nb"} {
+			content := append([]rune{first}, []rune(rest)...)
+			runScanCase(c, content, []string{"r", "r", "r", "u", "u", "u", "r", "m2", "r", "r", "r", "r", "x", "r"})
+			scanSpecCase(c, content)
 		}
 	}
 	// positions around multiples of 4096 with every pair of {x, LF, CR} across the boundary, walked over backwards
